@@ -700,6 +700,25 @@ class CallMixin(object):
             return ops.disj(items) if name == "any" else ops.conj(items)
         if name == "map":
             f = args[0]
+            src = args[1].seq if isinstance(args[1], GenVal) else args[1]
+            if hasattr(src, "freeze"):
+                src = src.freeze()
+            if isinstance(src, SymSeq):
+                # element-wise image of a sequence of symbolic length: one application to an ARBITRARY element in
+                # code mode (it may raise: then the mapping raises), then the mapped sequence evaluated lazily
+                k = z3.Int(fresh_name("map_k"))
+                self.path.assume(z3.And(k >= 0, k < z3num(src.length)))
+                if self.path.nondet("map_applies_to_some_element"):
+                    self.call_value(f, [src.at(k)], {})
+                    raise PathEnd()      # did not raise: the other branch continues with the mapped sequence
+
+                def at(j, src=src, f=f):
+                    self.spec_mode += 1
+                    try:
+                        return self.call_value(f, [src.at(j)], {})
+                    finally:
+                        self.spec_mode -= 1
+                return SymSeq(src.length, at, "map")
             return PyList([self.call_value(f, [x], {}) for x in self.iter_concrete(args[1])])
         if name == "type":
             return TypeOf(args[0])
